@@ -7,6 +7,9 @@ import os
 import subprocess
 import sys
 import time
+import itertools
+
+_ctr = itertools.count()
 
 VERIF = '/verif'
 REPO = '/repo'
@@ -63,6 +66,10 @@ class Check:
         self.cov = {}
         self.assumptions = []
         os.makedirs(REPLAYS, exist_ok=True)
+        if not self.replay:
+            for f in os.listdir(REPLAYS):
+                if f.startswith(pid + '-'):
+                    os.remove(os.path.join(REPLAYS, f))
         try:
             self.known = json.load(open(KNOWN))
         except Exception:
@@ -102,7 +109,7 @@ class Check:
 
     def run_harness(self, binary, args, timeout=900, env=None, stdin=None):
         """Runs a harness binary; it must write a JSON result to the path given by -out."""
-        outp = os.path.join(BUILD, 'out', '%s-%d-%d.json' % (self.pid, os.getpid(), int(time.time() * 1e3) % 10**9))
+        outp = os.path.join(BUILD, 'out', '%s-%d-%d-%d.json' % (self.pid, os.getpid(), int(time.time() * 1e3) % 10**9, next(_ctr)))
         os.makedirs(os.path.dirname(outp), exist_ok=True)
         e = goenv()
         e['VERIF_SEED'] = str(self.seed)
@@ -126,6 +133,34 @@ class Check:
         res['_stdout'] = p.stdout[-2000:]
         res['_rc'] = p.returncode
         return res
+
+    def run_harness_parallel(self, binary, args, behaviours, name='par', procs=8, timeout=1500, env=None):
+        """Splits the behaviours over several harness processes ('-in' is appended); merges the results.
+        Behaviour ids are global indexes into `behaviours`."""
+        from concurrent.futures import ThreadPoolExecutor
+        n = max(1, min(procs, len(behaviours)))
+        chunks = [[] for _ in range(n)]
+        for i, b in enumerate(behaviours):
+            chunks[i % n].append({'id': i, 'states': b})
+        files = [self.write_behaviours('%s-%d' % (name, k), ch) for k, ch in enumerate(chunks)]
+
+        def one(f):
+            return self.run_harness(binary, args + ['-in', f], timeout=timeout, env=env)
+        with ThreadPoolExecutor(max_workers=n) as ex:
+            results = list(ex.map(one, files))
+        for f in files:
+            os.remove(f)
+        out = {'violations': [], 'inconclusive': [], 'samples': [], 'stats': {}, 'behaviours': 0, 'steps': 0}
+        for r in results:
+            out['violations'] += r['violations']
+            out['inconclusive'] += r['inconclusive']
+            out['samples'] += r['samples']
+            out['behaviours'] += r.get('behaviours', 0)
+            out['steps'] += r.get('steps', 0)
+            for k, v in r['stats'].items():
+                out['stats'][k] = out['stats'].get(k, 0) + v
+        out['violations'].sort(key=lambda v: (v['behaviour'], v['step']))
+        return out
 
     # ---------- behaviours ----------
     def write_behaviours(self, name, behaviours):
